@@ -27,6 +27,7 @@ func init() {
 			ruleC10O6(r)
 			ruleDrainBounds(r, "O7")
 			ruleAlwaysCancels(r, "O8")
+			r.borrow("C08", func() { ruleD1(r) }) // a dispatch goroutine stuck on an abandoned reply channel survives Close
 			ruleC10O11(r)
 			ruleC10O14(r)
 			le10 := newLockEngine(r.P)
